@@ -903,6 +903,41 @@ func c16Burst(tier string, seed int64, idx int, c c16Case, res *core.Result) {
 		cancel()
 		settle(tier, func() bool { return w.Left() == 0 })
 	}
+	// after the burst has drained, traffic below the buffer reaches the same (still attached, live)
+	// peers: three calls, one at a time
+	before := h.Hits()["proxy.drop"]
+	for k := 0; k < 3; k++ {
+		tag := fmt.Sprintf("after-burst%d-%d", idx, k)
+		pdone := make(chan error, 1)
+		pctx, pcancel := context.WithCancel(context.Background())
+		go func() {
+			got, err := svc.Invoke(pctx, cc, tag, []byte(tag))
+			if err == nil && string(got) != tag {
+				err = fmt.Errorf("wrong reply %q", got)
+			}
+			pdone <- err
+		}()
+		var perr error
+		pgot := false
+		stp, _ := settle(tier, func() bool {
+			select {
+			case perr = <-pdone:
+				pgot = true
+			default:
+			}
+			return pgot
+		})
+		pcancel()
+		if stp == "stuck" {
+			res.Violate("peer-lost-after-burst", "call %d made after the burst had drained never completes (final state, %d drops during the calls): the proxy no longer reaches a peer that is still attached and alive", k, h.Hits()["proxy.drop"]-before)
+			break
+		} else if stp == "ok" && perr != nil {
+			res.Violate("peer-lost-after-burst", "call %d made after the burst had drained failed: %v", k, perr)
+			break
+		} else if stp == "ok" {
+			res.Stat("calls_after_burst", 1)
+		}
+	}
 	finish(tier, b, h, res)
 	res.Retire = true
 }
@@ -911,12 +946,12 @@ func init() {
 	core.Register(&core.Prop{
 		ID:             "C16",
 		Level:          "exploration",
-		Rule:           "(envelopes) 1..8 attached + 0..4 dialable scripted peers on one proxy, each attached peer sends uniquely numbered envelopes (random bodies, some with status/trailer, earlier ProxyRecord, a ProxyNext route, alias / blocked / unknown destinations) under one of 4 rewriting functions, with a credit scheme keeping <=12 outstanding per destination; per (source, destination) the delivered sequence must equal the sent sequence, proto.Equal modulo ProxyRecord (+ exactly one proxy name), ProxyNext (last hop popped) and the rewritten destination, each peer dialled at most once, proxy.drop never fires. (rpc) the C01 proxy-topology cases and C02 cases forced through client-proxy-demux-serve must pass their own oracles with zero drops. (redial) the first 1..3 dials of a name fail and later ones succeed: envelopes sent after the failure was reported arrive in order through a fresh dial. (refail) a peer re-attaches and the superseded connection fails afterwards; a dialled peer's connection faults while the serve loop is held in the rewriting function: later envelopes reach the peer currently attached / a fresh dial. (burst) server-stream of 50 and 64 concurrent unary calls above the buffer: loss must be exactly accounted for by the drop hook and never a reorder/duplicate. Distinct = case descriptors; all non-trivial.",
+		Rule:           "(envelopes) 1..8 attached + 0..4 dialable scripted peers on one proxy, each attached peer sends uniquely numbered envelopes (random bodies, some with status/trailer, earlier ProxyRecord, a ProxyNext route, alias / blocked / unknown destinations) under one of 4 rewriting functions, with a credit scheme keeping <=12 outstanding per destination; per (source, destination) the delivered sequence must equal the sent sequence, proto.Equal modulo ProxyRecord (+ exactly one proxy name), ProxyNext (last hop popped) and the rewritten destination, each peer dialled at most once, proxy.drop never fires. (rpc) the C01 proxy-topology cases and C02 cases forced through client-proxy-demux-serve must pass their own oracles with zero drops. (redial) the first 1..3 dials of a name fail and later ones succeed: envelopes sent after the failure was reported arrive in order through a fresh dial. (refail) a peer re-attaches and the superseded connection fails afterwards; a dialled peer's connection faults while the serve loop is held in the rewriting function: later envelopes reach the peer currently attached / a fresh dial. (burst) server-stream of 50 and 64 concurrent unary calls above the buffer: loss must be exactly accounted for by the drop hook and never a reorder/duplicate; after the burst has drained, three calls one at a time must complete (the peers are still attached and alive). Distinct = case descriptors; all non-trivial.",
 		Plan:           func(tier string, seed int64) int { return len(c16List(tier)) },
 		ThoroughRounds: 4,
 		Run:            c16Run,
 		RequiredStats: func(string) []string {
-			return []string{"envelopes_delivered_and_compared", "rpc_workload_cases_through_proxy", "burst_streams", "hook:proxy.forward", "redial_cases", "refail_cases", "refused_request_cases"}
+			return []string{"envelopes_delivered_and_compared", "rpc_workload_cases_through_proxy", "burst_streams", "hook:proxy.forward", "redial_cases", "refail_cases", "refused_request_cases", "calls_after_burst"}
 		},
 		Assumptions: []string{"bounded families keep at most 12 envelopes outstanding per destination (below the proxy's 16-slot buffer), as the property prescribes"},
 	})
